@@ -956,6 +956,150 @@ Theorem mmap_empty_read_at_end_refuted_proof :
   write_all false [VU8 5; VBytes []] = [5].
 Proof. repeat split; vm_compute; reflexivity. Qed.
 
+(* ---- independence past the end: everything except the 8-bit reads -------------------------------------------- *)
+Definition sim2 (d : list Z) (st : sys bstate) (sb : sys (list Z)) : Prop :=
+  bst sb = d /\ cur st = cur sb /\ oth st = oth sb /\
+  good d (bst st) (rpos (cur st)) /\ 0 <= rpos (cur st) /\ 0 <= rpos (oth st).
+
+Lemma sim2_intro d s c o :
+  good d s (rpos c) -> 0 <= rpos c -> 0 <= rpos o -> sim2 d (mkSys s c o) (mkSys d c o).
+Proof. intros. unfold sim2. cbn [bst cur oth]. repeat split; auto. Qed.
+
+Lemma step_sim2 d st sb o :
+  sim2 d st sb -> allowed (random_access (bst st)) o -> ~ is8 o ->
+  exists st' sb' v vb,
+    step any_backend st o = Some (st', v) /\ step bytes_backend sb o = Some (sb', vb) /\
+    obs_eqv v vb /\ sim2 d st' sb' /\ random_access (bst st') = random_access (bst st).
+Proof.
+  intros Hsim Hal H8.
+  destruct st as [s c oo], sb as [db cb ob]. unfold sim2 in Hsim. cbn [bst cur oth] in Hsim.
+  destruct Hsim as (-> & <- & <- & G & P1 & P2). cbn [bst] in Hal.
+  pose proof (good_len d s _ G) as HL.
+  assert (HLb : blen bytes_backend d = len d) by reflexivity.
+  assert (Hfix : forall w dec, 0 <= w ->
+     exists st' sb' v,
+       read_fixed any_backend (mkSys s c oo) w dec = Some (st', v) /\
+       read_fixed bytes_backend (mkSys d c oo) w dec = Some (sb', v) /\
+       sim2 d st' sb' /\ random_access (bst st') = random_access s).
+  { intros w dec Hw.
+    destruct (read_bytes_sim d s c oo w G Hw P1) as (s' & r & rb & R1 & R2 & D & Er & Nn & G' & RA).
+    unfold read_fixed. rewrite R1, R2. cbn [option_bind fst snd cur]. rewrite D.
+    eexists _, _, _. split; [reflexivity|]. split; [reflexivity|]. split; [|exact RA].
+    apply sim2_intro; cbn [rpos]; auto. pose proof (len_nonneg (br_data rb)). lia. }
+  assert (Hsame : forall st' sb' v, step any_backend (mkSys s c oo) o = Some (st', v) ->
+                    step bytes_backend (mkSys d c oo) o = Some (sb', v) ->
+                    sim2 d st' sb' -> random_access (bst st') = random_access s ->
+                    exists st' sb' v vb,
+                      step any_backend (mkSys s c oo) o = Some (st', v) /\
+                      step bytes_backend (mkSys d c oo) o = Some (sb', vb) /\
+                      obs_eqv v vb /\ sim2 d st' sb' /\ random_access (bst st') = random_access s).
+  { intros st' sb' v A B C D. exists st', sb', v, v. split; [exact A|]. split; [exact B|]. split; [left; reflexivity|]. auto. }
+  destruct o; cbn [allowed is8] in Hal, H8; try tauto.
+  - (* Seek *)
+    eapply Hsame; cbn [step]; [rewrite seek_factor, HL; reflexivity|rewrite seek_factor, HLb; reflexivity| |reflexivity].
+    destruct (seek_pure_props (len d) c off whence) as (A1 & A2 & A3).
+    apply sim2_intro; auto. { eapply good_ra; eauto. } apply A3; [apply len_nonneg|exact P1].
+  - (* Read *)
+    destruct (bbytes_agree d s (rpos c) false n G Hal P1) as (s' & r & rb & E & Eb & D & Er & Nn & G' & RA).
+    eapply Hsame; cbn [step cur bst]; cbn [bbytes bytes_backend];
+      [rewrite E; reflexivity|rewrite Eb; cbn [option_bind fst snd]; rewrite <- D, <- Er; reflexivity| |exact RA].
+    unfold set_cur. cbn [oth bst fst snd]. apply sim2_intro; cbn [rpos]; auto.
+    pose proof (len_nonneg (br_data r)). lia.
+  - (* ReadAt *)
+    destruct Hal as (Hra & Hn & Hoff).
+    destruct (bbytes_agree d s off false n (good_ra d s _ off Hra G) Hn Hoff) as (s' & r & rb & E & Eb & D & Er & Nn & G' & RA).
+    eapply Hsame; cbn [step cur bst]; cbn [bbytes bytes_backend];
+      [rewrite E; reflexivity|rewrite Eb; cbn [option_bind fst snd]; rewrite <- D, <- Er; reflexivity| |exact RA].
+    unfold set_cur. cbn [oth bst fst snd]. apply sim2_intro; auto. eapply good_ra; [congruence|exact G'].
+  - (* ReadBytes: the nil flag may differ *)
+    destruct (read_bytes_sim d s c oo n G Hal P1) as (s' & r & rb & R1 & R2 & D & Er & Nn & G' & RA).
+    cbn [step]. rewrite R1, R2. cbn [option_bind fst snd]. rewrite D.
+    eexists _, _, _, _. split; [reflexivity|]. split; [reflexivity|]. split.
+    { right. eexists _, _, _. split; reflexivity. }
+    split; [|exact RA]. apply sim2_intro; cbn [rpos]; auto. pose proof (len_nonneg (br_data rb)). lia.
+  - destruct (Hfix 2 dec_u16 ltac:(lia)) as (st' & sb' & v & A & B & C & D). eapply Hsame; eauto.
+  - destruct (Hfix 3 dec_u24 ltac:(lia)) as (st' & sb' & v & A & B & C & D). eapply Hsame; eauto.
+  - destruct (Hfix 4 dec_u32 ltac:(lia)) as (st' & sb' & v & A & B & C & D). eapply Hsame; eauto.
+  - destruct (Hfix 8 dec_u64 ltac:(lia)) as (st' & sb' & v & A & B & C & D). eapply Hsame; eauto.
+  - destruct (Hfix 2 (fun l d0 => to_signed 16 (dec_u16 l d0)) ltac:(lia)) as (st' & sb' & v & A & B & C & D). eapply Hsame; eauto.
+  - destruct (Hfix 3 (fun l d0 => sext24 (dec_u24 l d0)) ltac:(lia)) as (st' & sb' & v & A & B & C & D). eapply Hsame; eauto.
+  - destruct (Hfix 4 (fun l d0 => to_signed 32 (dec_u32 l d0)) ltac:(lia)) as (st' & sb' & v & A & B & C & D). eapply Hsame; eauto.
+  - destruct (Hfix 8 (fun l d0 => to_signed 64 (dec_u64 l d0)) ltac:(lia)) as (st' & sb' & v & A & B & C & D). eapply Hsame; eauto.
+  - eapply Hsame; cbn [step]; [reflexivity|reflexivity|apply sim2_intro; auto|reflexivity].
+  - eapply Hsame; cbn [step cur bst]; [rewrite HL; reflexivity|reflexivity|apply sim2_intro; auto|reflexivity].
+  - eapply Hsame; cbn [step]; [reflexivity|reflexivity|apply sim2_intro; auto|reflexivity].
+  - eapply Hsame; cbn [step]; [reflexivity|reflexivity|unfold set_cur; cbn [bst oth cur]; apply sim2_intro; auto|reflexivity].
+  - eapply Hsame; cbn [step]; [reflexivity|reflexivity|apply sim2_intro; auto|reflexivity].
+  - eapply Hsame; cbn [step]; [reflexivity|reflexivity|cbn [cur oth bst]; apply sim2_intro; auto; eapply good_ra; eauto|reflexivity].
+  - eapply Hsame; cbn [step]; [reflexivity|reflexivity|apply sim2_intro; auto|reflexivity].
+  - (* ReadString *)
+    destruct (read_bytes_sim d s c oo n G Hal P1) as (s' & r & rb & R1 & R2 & D & Er & Nn & G' & RA).
+    eapply Hsame; cbn [step]; [rewrite R1; cbn [option_bind fst snd]; rewrite D; reflexivity
+                              |rewrite R2; reflexivity| |exact RA].
+    apply sim2_intro; cbn [rpos]; auto. pose proof (len_nonneg (br_data rb)). lia.
+Qed.
+
+Theorem backend_independence_past_end_proof s d ops :
+  healthy s d -> Forall (allowed (random_access s)) ops -> Forall (fun o => ~ is8 o) ops ->
+  exists st' sb' outs outsb,
+    run any_backend (new_sys s) ops = Some (st', outs) /\
+    run bytes_backend (new_sys d) ops = Some (sb', outsb) /\
+    Forall2 obs_eqv outs outsb /\ cur st' = cur sb' /\ oth st' = oth sb'.
+Proof.
+  intros H.
+  assert (Hgen : forall ops st sb, sim2 d st sb -> Forall (allowed (random_access (bst st))) ops ->
+            Forall (fun o => ~ is8 o) ops ->
+            exists st' sb' outs outsb,
+              run any_backend st ops = Some (st', outs) /\ run bytes_backend sb ops = Some (sb', outsb) /\
+              Forall2 obs_eqv outs outsb /\ sim2 d st' sb').
+  { clear ops. induction ops as [|o rest IH]; intros st sb Hsim Hal H8.
+    - exists st, sb, [], []. cbn [run]. split; [reflexivity|]. split; [reflexivity|]. split; [constructor|exact Hsim].
+    - inversion Hal as [|? ? Ho Hrest]; subst. inversion H8 as [|? ? H8o H8r]; subst.
+      destruct (step_sim2 d st sb o Hsim Ho H8o) as (st1 & sb1 & v & vb & S1 & S2 & E & Hsim1 & RA).
+      rewrite <- RA in Hrest.
+      destruct (IH st1 sb1 Hsim1 Hrest H8r) as (st' & sb' & outs & outsb & R1 & R2 & F2 & S').
+      exists st', sb', (v :: outs), (vb :: outsb). cbn [run]. rewrite S1, S2. cbn [option_bind fst snd].
+      rewrite R1, R2. cbn [option_bind fst snd]. split; [reflexivity|]. split; [reflexivity|].
+      split; [constructor; assumption|exact S']. }
+  intros Hal H8.
+  destruct (Hgen ops (new_sys s) (new_sys d)) as (st' & sb' & outs & outsb & R1 & R2 & F2 & S'); auto.
+  { unfold sim2, new_sys. cbn [bst cur oth rpos]. repeat split; auto; try lia. apply healthy_good. exact H. }
+  exists st', sb', outs, outsb. destruct S' as (_ & A & B & _). auto.
+Qed.
+
+(* ---- the constructors build healthy sources --------------------------------------------------------------------- *)
+Theorem constructors_healthy_proof d sched :
+  (forall ewl failing, construct CBytes d sched ewl failing = Some (SBytes d)) /\
+  (forall n ewl failing, construct (CHasBytes n) d sched ewl failing = Some (SBytes d)) /\
+  (forall ewl failing, exists s, construct (CFile (len d)) d sched ewl failing = Some s /\ healthy s d) /\
+  (forall n ewl, n < 0 -> construct (CPlain n) d sched ewl false = Some (SBytes d)) /\
+  (forall n ewl, n < 0 -> construct (CReaderAt n) d sched ewl false = Some (SBytes d)) /\
+  (positive_sched sched -> exists s, construct (CPlain (len d)) d sched false false = Some s /\ healthy s d) /\
+  (positive_sched sched -> forall n, n = len d \/ n < 0 ->
+     exists s, construct (CSeeker n) d sched false false = Some s /\ healthy s d) /\
+  (exists s, construct (CReaderAt (len d)) d [] false false = Some s /\ healthy s d) /\
+  healthy (SBytes d) d.
+Proof.
+  pose proof (len_nonneg d) as Hd.
+  split; [reflexivity|]. split; [reflexivity|].
+  split. { intros. eexists. split; [reflexivity|]. apply (H_seeker d [] true). constructor. }
+  split. { intros n ewl Hn. cbn [construct]. replace (n <? 0) with true by (symmetry; apply Z.ltb_lt; lia). reflexivity. }
+  split. { intros n ewl Hn. cbn [construct]. replace (0 <? n) with false by (symmetry; apply Z.ltb_ge; lia).
+           replace (n <? 0) with true by (symmetry; apply Z.ltb_lt; lia). reflexivity. }
+  split. { intros Hs. cbn [construct]. replace (len d <? 0) with false by (symmetry; apply Z.ltb_ge; lia).
+           eexists. split; [reflexivity|]. apply H_reader. exact Hs. }
+  split. { intros Hs n [->|Hn]; cbn [construct].
+           - replace (len d <? 0) with false by (symmetry; apply Z.ltb_ge; lia).
+             eexists. split; [reflexivity|]. apply H_seeker. exact Hs.
+           - replace (n <? 0) with true by (symmetry; apply Z.ltb_lt; lia).
+             eexists. split; [reflexivity|]. apply H_seeker. exact Hs. }
+  split; [|apply H_bytes].
+  cbn [construct]. destruct (Z.ltb_spec 0 (len d)) as [Hpos|Hz].
+  - eexists. split; [reflexivity|]. apply H_readerat.
+  - replace (len d <? 0) with false by (symmetry; apply Z.ltb_ge; lia).
+    eexists. split; [reflexivity|]. cbn [fe_of]. apply H_reader. constructor.
+Qed.
+
 (* ---- non-vacuity --------------------------------------------------------------------------------------- *)
 Definition ex_values : list value := [VU16 513; VI24 (-2); VBytes [7; 8]; VU64 (2 ^ 63 + 5); VI8 (-128)].
 
